@@ -6,6 +6,8 @@ pub mod c34;
 pub mod c35;
 pub mod c36;
 pub mod c37;
+pub mod c38;
+pub mod c39;
 
 use crate::exec::{self, Verdict};
 use crate::txlab::Built;
